@@ -30,6 +30,10 @@ Acts(s) ==
     \cup {[name |-> "InterchainTransfer", caller |-> "alice", id |-> id, dest |-> "ethereum", destAddr |-> "0xdest", amt |-> 1,
            data |-> "none", gas |-> 1, auth |-> au] : id \in {"iA1", "cS"}, au \in Auths}
     \cup {[name |-> "ExampleSend", caller |-> "alice", gas |-> 1, auth |-> au] : au \in Auths}
+    \* the service's own address named as caller / payer by an outside caller
+    \cup {[name |-> "InterchainTransfer", caller |-> "its", id |-> "cS", dest |-> "ethereum", destAddr |-> "0xdest", amt |-> 1,
+           data |-> "none", gas |-> 1, auth |-> au] : au \in {{}, {"mallory"}}}
+    \cup {[name |-> "DeployRemoteCanonical", tok |-> "sac", dest |-> "ethereum", spender |-> "its", gas |-> 1, auth |-> {}]}
 InitState == [Blank("owner0") EXCEPT !.trusted["ethereum"] = TRUE, !.gas["alice"] = 3, !.bal["sac"]["alice"] = 2]
 Init == st = InitState
 Next == \E a \in Acts(st) : st' = Apply(st, a).post
